@@ -42,6 +42,19 @@ inductive Col
 inductive Kind | int | real | text
   deriving DecidableEq, Repr, Inhabited
 
+/-- declared type of a column as SQLite classifies it (INT / REAL / anything else numeric / TEXT) -/
+inductive Decl | integer | real | numeric | text
+  deriving DecidableEq, Repr, Inhabited
+
+def Kind.decl : Kind → Decl
+  | .int => .integer | .real => .real | .text => .text
+
+/-- an added column: its name and declared type -/
+structure ColDef where
+  name : Py.Str
+  decl : Decl
+  deriving DecidableEq, Repr, Inhabited
+
 def StdCol.all : List StdCol :=
   [.serial, .name, .altLoc, .resName, .chainID, .resSeq, .iCode, .x, .y, .z, .occ, .temp, .element, .model]
 
@@ -74,9 +87,46 @@ def cell (c : Col) (i : Nat) (r : Row) : Val :=
   | .std s => r.std s
   | .extra k => r.extra.getD k (.int 0)
 
+/-- a typed record can hold an `int` in an INT attribute, a `float` in a REAL one, a `str` in a TEXT one -/
+def setStd (s : StdCol) (w : Val) (a : Py.Atom) : Option Py.Atom :=
+  match s, w with
+  | .serial, .int i => some { a with serial := i }
+  | .resSeq, .int i => some { a with resSeq := i }
+  | .model, .int i => some { a with model := i }
+  | .x, .real q => some { a with x := q }
+  | .y, .real q => some { a with y := q }
+  | .z, .real q => some { a with z := q }
+  | .occ, .real q => some { a with occ := q }
+  | .temp, .real q => some { a with temp := q }
+  | .name, .text t => some { a with name := t }
+  | .altLoc, .text t => some { a with altLoc := t }
+  | .resName, .text t => some { a with resName := t }
+  | .chainID, .text t => some { a with chainID := t }
+  | .iCode, .text t => some { a with iCode := t }
+  | .element, .text t => some { a with element := t }
+  | _, _ => none
+
+structure Tab where
+  name : Py.Str
+  rows : Table
+  deriving DecidableEq, Repr, Inhabited
+
+/-- one database object: its tables (a `pdb2sql` has one, a `many2sql` several), the columns added so far,
+    and the number of ENDMDL records of the input (`_nModel`) -/
+structure Db where
+  tabs : List Tab
+  extra : List ColDef := []
+  nModel : Nat := 0
+  deriving DecidableEq, Repr, Inhabited
+
+def Db.extraNames (db : Db) : List Py.Str := db.extra.map (·.name)
+
 /-- attribute names of a table with added columns `extra`, as `get_colnames()` lists them -/
 def colnames (extra : List Py.Str) : List Py.Str :=
   rowIDName :: (StdCol.all.map StdCol.pyName ++ extra)
+
+/-- `get_colnames()` -/
+def Db.colnames (db : Db) : List Py.Str := Tbl.colnames db.extraNames
 
 /-- the attribute a name denotes (exact, case-sensitive); `none` = unknown name -/
 def resolve (extra : List Py.Str) (n : Py.Str) : Option Col :=
@@ -232,22 +282,22 @@ def valMatches (numeric : Bool) (a v : Val) : Bool :=
     | .real q => a = .text (textOfReal q)
 
 /-- is the attribute declared numeric (rowID, INT and REAL attributes; an added column by its declaration) -/
-def isNumeric (extraNumeric : List Bool) : Col → Bool
+def isNumeric (extra : List ColDef) : Col → Bool
   | .rowID => true
   | .std s => s.kind != .text
-  | .extra k => extraNumeric.getD k true
+  | .extra k => (extra.getD k ⟨[], .numeric⟩).decl != .text
 
 /-- a condition holds when the attribute equals one of the listed values; a negated one when it equals none -/
-def Cond.holds (xn : List Bool) (c : Cond) (i : Nat) (r : Row) : Bool :=
-  (c.vals.any (valMatches (isNumeric xn c.col) (cell c.col i r))) != c.neg
+def Cond.holds (xd : List ColDef) (c : Cond) (i : Nat) (r : Row) : Bool :=
+  (c.vals.any (valMatches (isNumeric xd c.col) (cell c.col i r))) != c.neg
 
 /-- every keyword condition holds -/
-def sat (xn : List Bool) (q : List Cond) (ri : Row × Nat) : Bool :=
-  q.all (fun c => c.holds xn ri.2 ri.1)
+def sat (xd : List ColDef) (q : List Cond) (ri : Row × Nat) : Bool :=
+  q.all (fun c => c.holds xd ri.2 ri.1)
 
 /-- the atoms a selection denotes, each once, in input order, with their positions -/
-def selected (xn : List Bool) (T : Table) (q : List Cond) : List (Row × Nat) :=
-  T.zipIdx.filter (sat xn q)
+def selected (xd : List ColDef) (T : Table) (q : List Cond) : List (Row × Nat) :=
+  T.zipIdx.filter (sat xd q)
 
 /-- the requested attributes in the requested order; a single attribute flattened -/
 def project (cs : List Col) (ri : Row × Nat) : Item :=
@@ -270,13 +320,14 @@ def colsOf (extra : List Py.Str) (columns : Py.Str) : Option (List Col) :=
   else (Py.splitOn ',' columns).mapM (fun p => resolve extra (Py.strip p))
 
 /-- **The property.**  `none` = rejected (unknown attribute or condition name). -/
-def get (extra : List Py.Str) (xn : List Bool) (T : Table) (columns : Py.Str) (kws : List Kw) : Option (List Item) :=
+def get (xd : List ColDef) (T : Table) (columns : Py.Str) (kws : List Kw) : Option (List Item) :=
+  let extra := xd.map (·.name)
   match colsOf extra columns, kws.mapM (condOf extra) with
-  | some cs, some q => some ((selected xn T q).map (project cs))
+  | some cs, some q => some ((selected xd T q).map (project cs))
   | _, _ => none
 
 /-- positions of the selected atoms -/
-def positions (xn : List Bool) (T : Table) (q : List Cond) : List Nat := (selected xn T q).map (·.2)
+def positions (xd : List ColDef) (T : Table) (q : List Cond) : List Nat := (selected xd T q).map (·.2)
 
 /-- distinct elements in order of first occurrence -/
 def firstOccurrences {α : Type} [DecidableEq α] : List α → List α
@@ -284,7 +335,7 @@ def firstOccurrences {α : Type} [DecidableEq α] : List α → List α
   | a :: t => a :: (firstOccurrences t).filter (· ≠ a)
 
 /-- residues of a selection: distinct (chainID, resName, resSeq), in order of first occurrence -/
-def residues (xn : List Bool) (T : Table) (q : List Cond) : List (List Val) :=
-  firstOccurrences ((selected xn T q).map (fun ri => [ri.1.std .chainID, ri.1.std .resName, ri.1.std .resSeq]))
+def residues (xd : List ColDef) (T : Table) (q : List Cond) : List (List Val) :=
+  firstOccurrences ((selected xd T q).map (fun ri => [ri.1.std .chainID, ri.1.std .resName, ri.1.std .resSeq]))
 
 end Spec
